@@ -302,7 +302,7 @@ def project(op, status, body):
         if not isinstance(it, dict):
             return "other", {}
         return "item", {"itemerr": "error" in it, "saved": dig(stored_item(it)), "full": dig(body)}
-    if op in ("init", "reinit", "apply"):
+    if op in ("init", "reinit", "initbad", "apply"):
         if "query" in body and "state" not in body:
             return "query", {"full": dig(body)}
         st, hist = body.get("state"), body.get("history")
@@ -321,8 +321,8 @@ def project(op, status, body):
 
 ROUTE = {"find": ("find-files", "post"), "load": ("load-json-file", "post"), "save": ("save-file", "post"),
          "remove": ("remove-file", "put"), "check": ("check-modify", "post"), "init": ("init-saved-proof", "post"),
-         "reinit": ("init-saved-proof", "post"), "apply": ("apply-method", "post"), "search": ("search-method", "post")}
-ORACLE_OPS = ("check", "init", "reinit", "apply", "search")
+         "reinit": ("init-saved-proof", "post"), "initbad": ("init-saved-proof", "post"), "apply": ("apply-method", "post"), "search": ("search-method", "post")}
+ORACLE_OPS = ("check", "init", "reinit", "initbad", "apply", "search")
 
 
 # --------------------------------------------------------------------------------------------------------------------
@@ -339,6 +339,7 @@ class Runner:
         self.clock = int(time.time()) + 1000
         self.nsess = 0
         self.questions = {}
+        self.prelude_ok = True
 
     def cid_of(self, data):
         if data is None:
@@ -373,6 +374,9 @@ class Runner:
             self.srv.make_user(username, {f: self.contents[c] for f, c in files.items()})
         # a fixed first request (not an event): whatever the previous session left in the process-wide theory is replaced
         self.srv.request("load-json-file", {"username": "master", "filename": "zreset", "profile": False, "line_length": 80})
+        st, body, _, _ = self.srv.request("init-saved-proof", {"username": "master", "profile": False, "theory_name": "zreset", "thm_name": "",
+                                                                "vars": {"A": "bool"}, "prop": "A ⟶ A", "steps": [], "index": 0})
+        self.prelude_ok = self.prelude_ok and st == 200 and isinstance(body, dict) and "state" in body
         ev = {"kind": "start", "sid": sid, "fam": fam, "disk": self.disk(names), "key": "start %s" % sid}
         if extra:
             ev.update(extra)
@@ -414,6 +418,7 @@ def concretize(r):
     steps = list(r.get("steps", []))
     lab = {"find": "find(%s)" % u, "load": "load(%s,%s)" % (u, f), "save": "save(%s,%s,%s)" % (u, f, r["req"]["c"]),
            "remove": "remove(%s,%s)" % (u, f), "check": "check(%s,%s)" % (u, r["req"]["e"]), "init": "init(%s,%s)" % (u, f),
+           "initbad": "initbad(%s,%s)" % (u, f),
            "reinit": "reinit(%s,%s,%s)" % (u, f, "".join(steps)), "apply": "apply(%s,%s,%s+%s)" % (u, f, "".join(steps), r["req"]["s"]),
            "search": "search(%s,%s,%s)" % (u, f, "".join(steps))}[op]
     d = {"u": u, "op": op, "f": f, "label": lab}
@@ -435,6 +440,9 @@ def concretize(r):
         p = {"username": u, "profile": False, "theory_name": f, "thm_name": thm["name"], "vars": thm["vars"], "prop": thm["prop"],
              "steps": [STEP[s] for s in steps], "index": len(steps)}
         d["sess"] = dig([f, thm["name"], steps])
+        if op == "initbad":
+            p["prop"] = "A ∧ ∧ B"
+            d["sess"] = dig([f, thm["name"], steps, "bad"])
         if op == "apply":
             p["step"] = STEP[r["req"]["s"]]
         elif op == "search":
@@ -489,7 +497,7 @@ def finish(runner, out_path):
     for cid, data in runner.extra_contents.items():
         if data is not None:
             runner.emit(declaration(cid, data))
-    runner.emit({"kind": "end", "repo_untouched": runner.srv.repo_untouched(), "sessions": runner.nsess, "key": "end"})
+    runner.emit({"kind": "end", "repo_untouched": runner.srv.repo_untouched(), "sessions": runner.nsess, "prelude_ok": runner.prelude_ok, "key": "end"})
     runner.out.close()
     side = {"questions": runner.questions, "contents": {**{k: v for k, v in runner.contents.items()}, **runner.extra_contents}}
     with open(out_path + ".questions.json", "w", encoding="utf-8") as f:
@@ -566,6 +574,9 @@ def mode_sessions(spec_path, out_path, scratch, seed):
             d["content"].insert(at, {"name": "verif_extra_" + thm_name, "prop": "A ⟶ A", "ty": "thm.ax", "vars": {"A": "bool"}})
         elif how == "drop_import":
             d["imports"] = d["imports"][:-1]
+        if dig(d) in runner.by_digest:                 # nothing to drop: the variant IS a content that already has a name
+            variants[key] = runner.by_digest[dig(d)]
+            return variants[key]
         cid = "var:%s:%s:%s" % (th, how, thm_name)
         variants[key] = cid
         runner.contents[cid] = d
@@ -637,7 +648,7 @@ def mode_sessions(spec_path, out_path, scratch, seed):
                         osteps.append(oitem["steps"][len(osteps)])
             elif c < 0.62:
                 cid = rnd.choice(vcs + ["lib:" + th])
-                send({"u": "ua", "op": "save", "f": th, "c": cid, "label": "save(ua,%s,%s)" % (th, cid.split(":")[1] if cid.startswith("var") else "same"),
+                send({"u": "ua", "op": "save", "f": th, "c": cid, "label": "save(ua,%s,%s)" % (th, cid.split(":")[2] if cid.startswith("var") else "same"),
                       "payload": {"username": "ua", "filename": th, "content": runner.contents[cid]}})
                 send({"u": "ua", "op": "reinit", "f": th, "label": "reinit(ua,%d)" % len(steps), "sess": sess_of(th, item, steps),
                       "payload": proof_payload("ua", th, item, list(steps), len(steps))})
@@ -653,6 +664,13 @@ def mode_sessions(spec_path, out_path, scratch, seed):
             elif c < 0.79:
                 send({"u": "ua", "op": "load", "f": th, "label": "load(ua,%s)" % th,
                       "payload": {"username": "ua", "filename": th, "profile": False, "line_length": 80}})
+            elif c < 0.83:
+                # the same proof with a statement that does not parse, asked twice
+                for _ in range(2):
+                    p = proof_payload("ua", th, item, list(steps), len(steps))
+                    p["prop"] = "A ∧ ∧ B"
+                    send({"u": "ua", "op": "initbad", "f": th, "label": "initbad(ua,%d)" % len(steps), "sess": dig([th, item["name"], steps, "bad"]),
+                          "payload": p})
             p = proof_payload("ua", th, item, list(steps), len(steps))
             p["step"] = step
             ev, body = send({"u": "ua", "op": "apply", "f": th, "label": "apply(ua,%s#%d)" % (item["name"], si), "sess": sess_of(th, item, steps),
@@ -703,6 +721,16 @@ def mode_oracle(q_path, out_path, scratch):
     Server.write(os.path.join(root, "library"), "zreset", CONTENT["zreset"])
     try:
         basic.load_metadata("master")
+    except Exception:  # noqa
+        pass
+    # the registries of methods / macros are filled by module imports: have the same modules as the server process (the Flask
+    # object itself is not used here)
+    try:
+        import flask.json
+        if not hasattr(flask.json, "JSONEncoder"):
+            flask.json.JSONEncoder = json.JSONEncoder
+        with contextlib.redirect_stdout(io.StringIO()), contextlib.redirect_stderr(io.StringIO()):
+            import app as _application  # noqa
     except Exception:  # noqa
         pass
     from kernel import theory
@@ -761,7 +789,7 @@ def answer(op, p, user, basic, theory, context, server, method, items, settings,
             history.extend(state.parse_steps([st]))
             states.append(copy.copy(state))
         return state, states, history
-    if op in ("init", "reinit"):
+    if op in ("init", "reinit", "initbad"):
         state, states, history = fresh_state(p["steps"])
         res = {"state": states[p["index"]].json_data(), "history": history}
         try:
